@@ -21,7 +21,7 @@ SameBag(p, q) == Len(p) = Len(q) /\ \A j \in 1..Len(p) :
                     Cardinality({m \in 1..Len(p) : p[m] = p[j]}) = Cardinality({m \in 1..Len(q) : q[m] = p[j]})
 
 TParse == /\ Ev.ev = "parse"
-          /\ Parse(Ev.shape, Ev.def, Ev.linux) = Ev.res
+          /\ Ev.res \in {Parse(Ev.shape, Ev.def, Ev.linux), ParseDoc(Ev.shape, Ev.def, Ev.linux)}
           /\ UNCHANGED rvars
 TSort == /\ Ev.ev = "sort"
          /\ IsSorted(Ev.sorted) /\ SameBag(Ev.xs, Ev.sorted)
